@@ -36,8 +36,10 @@ def gen_case(rng):
     box = rm.gen_box(rng, n, eq=True) if rng.random() < 0.45 else None
     ell = rng.choice([0, 0, 1, 1, 2])
     mod = None
-    if ell > 0 and rng.random() < 0.3:
-        rows = [[F(0)] * n, [F(1)] + [F(0)] * (n - 1)]
+    if ell > 0 and rng.random() < 0.4:
+        rows = rng.choice([[[F(0)] * n, [F(1)] + [F(0)] * (n - 1)],
+                           [[F(1)] + [F(0)] * (n - 1), [F(-1)] + [F(0)] * (n - 1)],       # no constant row
+                           [[F(1)] + [F(0)] * (n - 1)]])
         mod = [[common.frac_str(x) for x in r] for r in rows]
     return {'f': f, 'box': box, 'ell': ell, 'mod_supp': mod}
 
